@@ -291,11 +291,22 @@ fn plant(re: &Re, frag: &str, rng: &mut Rng, depth: usize, planted_depth: &mut O
     let here = planted_depth.is_none() && (rng.chance(1, 4) || !has_children(re));
     if here {
         *planted_depth = Some(depth);
+        // the fragment itself, or the fragment under an operator that can make it "optional"
+        // (a construct that never has to match must be rejected all the same)
+        let raw = Re::Raw(frag.to_string());
+        let planted = match rng.below(10) {
+            0 => Re::Rep(Box::new(raw), 0, RepMax::Exactly),
+            1 => Re::Rep(Box::new(raw), 0, RepMax::Bounded(0)),
+            2 => Re::Opt(Box::new(raw)),
+            3 => Re::Star(Box::new(raw)),
+            4 => Re::Alt(vec![Re::Lit('a', LitStyle::Verbatim), raw]),
+            _ => raw,
+        };
         // keep the replaced node next to the fragment so that the pattern stays rich
         return if rng.chance(1, 2) {
-            Re::Cat(vec![Re::Raw(frag.to_string()), re.clone()])
+            Re::Cat(vec![planted, re.clone()])
         } else {
-            Re::Cat(vec![re.clone(), Re::Raw(frag.to_string())])
+            Re::Cat(vec![re.clone(), planted])
         };
     }
     match re {
@@ -807,10 +818,13 @@ fn readme_blocks(res: &mut RunResult) {
             Ok(modes) => {
                 res.stats.count("readme_json_blocks_accepted");
                 // and it must build and survive a round trip
-                let s = serde_json::to_string(&modes).unwrap();
-                let back: Vec<scnr::ScannerMode> = serde_json::from_str(&s).unwrap();
-                if back != modes {
-                    res.violations.push(Violation::new("README example changes in a round trip", json!({"kind":"c16","block": block})));
+                let round = serde_json::to_string(&modes)
+                    .map_err(|e| e.to_string())
+                    .and_then(|s| serde_json::from_str::<Vec<scnr::ScannerMode>>(&s).map_err(|e| format!("{} in {}", e, s)));
+                match round {
+                    Ok(back) if back == modes => {}
+                    Ok(_) => res.violations.push(Violation::new("README example changes in a round trip", json!({"kind":"c16","block": block}))),
+                    Err(e) => res.violations.push(Violation::new(format!("README example does not survive a round trip: {}", e), json!({"kind":"c16","block": block}))),
                 }
                 if let Err(e) = scnr::ScannerBuilder::new().add_scanner_modes(&modes).build_uncached() {
                     res.violations.push(Violation::new(format!("README example does not build: {}", e), json!({"kind":"c16","block": block})));
